@@ -45,6 +45,9 @@ Inductive expr :=
 | ESetProp (e v : expr)                        (* e->n = v *)
 | EHi (e : expr)                               (* e->hi() : the user method `function hi() { return "hi" . $this->n; }` *)
 | EMatch (s : expr) (m : marms)                (* match (s) { c1, c2 => e, ..., default => d } *)
+| ECallN (f : string) (a : args) (xs : list string) (b : args)
+                                               (* f(a1, .., an, x1: b1, .., xk: bk): positional arguments, then
+                                                  named ones; the i-th name goes with the i-th element of b *)
 with args := ANil | ACons (e : expr) (r : args)
 (* the arms in source order; the `default` arm is kept last (the parser stores it apart and a match
    has no fall-through, so its position is not observable); MNil = no default *)
